@@ -78,7 +78,8 @@ def run_history(world, spec, hist, store_kind, oracles, sigtab=None, opts=None, 
             ctxt = dict(step=si, variant=variant, how=did, entry=entry, store=store_kind)
             o = dict(ctxt, real=real.short(), ref=ref.short(), log=list(real.log), sigs=dict(real.sigs))
             obs.append(o)
-            if ref.status == "ok":
+            if ref.status == "ok" and entry not in spec.get("expect_error", {}):
+                # (an evaluation that must be refused commits nothing, whatever plain execution would have done)
                 prog.commit_ref(ref)
             # ---------------- C01: value equals plain execution
             if "C01" in oracles:
